@@ -14,6 +14,12 @@ Post-condition monitors on what the real code returns:
   3..max_order+1 nodes (complex: maximal simplices of the max_order-skeleton with >= 3
   nodes, and all two-node simplices).
 
+* same-object sequences: the same calls before and after in-place edits of one network
+  object (default layout with pos=None: counts; explicit pos: full geometry; layouts: keys
+  == current node set), so that anything remembered per object across calls is observed.
+* position dicts are handed over in key orders other than H.nodes, with extra keys and with
+  tuple / list / float64 / float32 / int values.
+
 Keys: "<function>|<trigger>|<clause>"; the trigger of a polygon clause says whether max_order
 truncates, the trigger of a layout clause is the node-count class.  `draw` only delegates to
 draw_nodes and draw_hyperedges / draw_simplices: a clause that the component already failed
@@ -36,6 +42,10 @@ RULE = (
     "multi-edges; also 0-node, 1-node and edgeless networks) x all 8 network-taking layout functions with random options + edge_positions_from_barycenters "
     "(+ a DiHypergraph for the barycentres); draw case = one seeded network with >= 1 edge of >= 2 nodes x random positions with all coordinates distinct x "
     "3 style shapes (scalar, per-ID list/array/dict, stat-valued) x {draw, draw_nodes, draw_hyperedges | draw_simplices} x max_order in {None, 1..}; "
+    "position dicts (draw and barycentres) vary deterministically with idx: key order node-order / shuffled / sorted / reversed, extra keys that are no nodes "
+    "(also: the positions of a full network re-used for a copy with nodes removed / a subhypergraph), values tuple / list / float64 / float32 / int arrays; "
+    "sequence case = ONE network object: draw (pos=None and explicit pos) + all layouts + barycentres, then 2 x {in-place edit: node swap keeping the count, "
+    "convert_labels_to_integers(in_place=True), rewiring, add/remove edge or simplex, remove node; then everything again against the *current* network}; "
     "one evaluation = one call of a layout / draw function checked against the oracle. distinct_nontrivial = distinct (network, positions or options, call) "
     "where the network has at least one node (layout) or one edge with >= 2 nodes (draw)"
 )
@@ -49,6 +59,8 @@ ASSUMPTIONS = [
     "edge-stat style arguments for a SimplicialComplex are keyed by IDs the drawn (internal) hypergraph does not have; a ValueError 'must match the number of plotted elements' there is counted as a documented rejection",
     "barycentre of an empty edge is undefined and not demanded; pos=None draws are checked for counts only (positions are not observable)",
     "pca_transform takes positions, not a network, and is not a subject of the statement",
+    "sequence cases: after an in-place edit the network must still be structurally valid (snap.inv) else the case is discarded and counted; if the edit removed the "
+    "last edge with >= 2 nodes one is added back (drawing is only demanded under that precondition); explicit positions keep an entry for every label ever seen",
 ]
 CASE_TIMEOUT = 120
 
@@ -110,7 +122,7 @@ def floors(tier):
         "seq:explicit-pos-has-removed-nodes": int(0.4 * ns),
     })
     for e in ("swap-node", "relabel", "remove-node"):
-        f[f"edit:{e}"] = int(0.25 * ns)
+        f[f"edit:{e}"] = int(0.2 * ns)
     for e in ("rewire", "add-edge", "remove-edge"):
         f[f"edit:{e}"] = int(0.15 * ns)
     for e in ("add-simplex", "remove-simplex"):
